@@ -257,6 +257,49 @@ func (R *Run) checkCursor(rule string, only func(name string) bool) int {
 			if dep {
 				problems = append(problems, "the assembled buffer depends on the cursor")
 			}
+			// … nor does the cursor decide what is assembled: its value is only compared with the buffer's length,
+			// used as the lower bound of the slice that is copied, and advanced by the copy's result
+			eachInstr(fn, func(ins ssa.Instruction) {
+				u, ok := ins.(*ssa.UnOp)
+				if !ok || u.Op != token.MUL {
+					return
+				}
+				fa, ok := u.X.(*ssa.FieldAddr)
+				if !ok || fa.X != ssa.Value(recv) {
+					return
+				}
+				if f, _ := fieldOf(fa); f != cursorField {
+					return
+				}
+				for _, r := range *u.Referrers() {
+					switch x := r.(type) {
+					case *ssa.DebugRef:
+					case *ssa.Slice:
+						if x.Low != ssa.Value(u) {
+							problems = append(problems, "the cursor is used as something else than the lower bound of the copied slice at "+P.ipos(x))
+						}
+					case *ssa.BinOp:
+						other := x.Y
+						if other == ssa.Value(u) {
+							other = x.X
+						}
+						okUse := false
+						switch x.Op {
+						case token.GEQ, token.LSS, token.GTR, token.LEQ:
+							if c, isC := stripConv(other).(*ssa.Call); isC && calleeName(&c.Call) == "builtin.len" {
+								okUse = true
+							}
+						case token.ADD:
+							okUse = stripConv(other) == ssa.Value(cp)
+						}
+						if !okUse {
+							problems = append(problems, "the cursor takes part in a test or computation other than `cursor >= len(buf)` / `cursor + n` at "+P.ipos(x)+": what is emitted depends on how far the record has been read, i.e. on the size of the reader's buffer")
+						}
+					default:
+						problems = append(problems, "unrecognised use of the cursor at "+P.ipos(r))
+					}
+				}
+			})
 		}
 
 		switch {
